@@ -300,4 +300,18 @@ theorem class_keyword_values_safe :
     Dcg.Gen.CodeSites.kwargSites.all Dcg.Model.CodeSites.kwargSiteOK = true ∧
     Dcg.Gen.CodeSites.kwargSites ≠ [] := by decide
 
+/-- **Every return path of the extra-key sanitiser is the field-name resolver.** For the field models
+that write extra schema keys (`x-…` keywords, and with `--field-include-all-keys` EVERY unknown keyword of
+a property schema: `not`, `if`, `else`, `class`, …) as keyword NAMES of `Field(...)`, every function bound
+to `JsonSchemaParser.get_field_extra_key` (regenerated from the AST on every run: lambdas, methods of the
+class, every `return` of them, `a if c else b` split) returns
+`self.model_resolver.get_valid_field_name_and_alias(key)[0]` of the untouched key on EVERY path — an
+identifier that is not a keyword (C07) — so input text can only become the name of a keyword argument,
+never a keyword or an operator.  A fast path that returns the key unchanged (`if key.isidentifier(): return
+key`: `str.isidentifier` is true of `not`, `class`, `None`) breaks this obligation; the identity function is
+accepted only under `not can_have_extra_keys`, where keys are written as string literals of a dict. -/
+theorem field_extra_key_sanitiser_resolves :
+    Dcg.Gen.CodeSites.fieldExtraKeySanitiser.all Dcg.Model.CodeSites.sanitiserPathOK = true ∧
+    Dcg.Gen.CodeSites.fieldExtraKeySanitiser.any Dcg.Model.CodeSites.sanitiserBindsKeywordCase = true := by decide
+
 end Dcg.Props.C10
